@@ -30,6 +30,27 @@ abbrev Bytes := List UInt8
 abbrev G := Geom UInt64
 abbrev R := Res Err
 
+/-! ### length guards without walking the whole slice
+
+  Go's `len(data) < n` is O(1); `List.length` is O(len).  The decoders test the remaining length
+  once per member / per read, which makes the *compiled* model quadratic on the 10001-element cases of
+  the correspondence run.  Each guarded function below gets a twin that uses `lenLt` and a kernel-checked
+  `@[csimp]` equation, so the executable driver runs the twin while every theorem is about the original. -/
+
+/-- `decide (l.length < n)`, looking at no more than `n` cells. -/
+def lenLt {α : Type} : List α → Nat → Bool
+  | _, 0 => false
+  | [], _+1 => true
+  | _ :: t, n+1 => lenLt t n
+
+theorem lenLt_eq {α : Type} (l : List α) (n : Nat) : lenLt l n = decide (l.length < n) := by
+  induction l generalizing n with
+  | nil => cases n <;> simp [lenLt]
+  | cons a t ih =>
+    cases n with
+    | zero => simp [lenLt]
+    | succ n => simp [lenLt, ih]
+
 /-! ### integers ⇄ bytes -/
 
 /-- `k` little-endian bytes of `n`. -/
@@ -144,6 +165,16 @@ where
 def sliceFrom (data : Bytes) (n : Nat) : R Bytes :=
   if n ≤ data.length then .ok (data.drop n) else .panic "slice bounds out of range"
 
+def sliceFromFast (data : Bytes) (n : Nat) : R Bytes :=
+  if lenLt data n then .panic "slice bounds out of range" else .ok (data.drop n)
+
+@[csimp] theorem sliceFrom_eq_fast : @sliceFrom = @sliceFromFast := by
+  funext data n
+  simp only [sliceFrom, sliceFromFast, lenLt_eq, decide_eq_true_eq]
+  by_cases h : n ≤ data.length
+  · simp [h, Nat.not_lt.mpr h]
+  · simp [h, Nat.lt_of_not_le h]
+
 /-- `byteOrderType`. -/
 def byteOrderType (buf : Bytes) : R (Order × Nat) :=
   if buf.length < 6 then .err .notWKB else
@@ -153,6 +184,19 @@ def byteOrderType (buf : Bytes) : R (Order × Nat) :=
     else if b = 1 then .ok (.little, rd32 .little rest)
     else .err .notWKBHeader
   | [] => .err .notWKB
+
+def byteOrderTypeFast (buf : Bytes) : R (Order × Nat) :=
+  if lenLt buf 6 then .err .notWKB else
+  match buf with
+  | b :: rest =>
+    if b = 0 then .ok (.big, rd32 .big rest)
+    else if b = 1 then .ok (.little, rd32 .little rest)
+    else .err .notWKBHeader
+  | [] => .err .notWKB
+
+@[csimp] theorem byteOrderType_eq_fast : @byteOrderType = @byteOrderTypeFast := by
+  funext buf
+  simp only [byteOrderType, byteOrderTypeFast, lenLt_eq, decide_eq_true_eq]
 
 /-- `unmarshalByteOrderType`: (order, type, srid, geometry data). -/
 def unmarshalBOT (buf : Bytes) : R (Order × Nat × Nat × Bytes) :=
@@ -180,6 +224,13 @@ def unmarshalPoints (o : Order) (data : Bytes) : R (List (Pt UInt64)) :=
 /-- `unmarshalPoint`. -/
 def unmarshalPoint (o : Order) (buf : Bytes) : R (Pt UInt64) :=
   if buf.length < 16 then .err .notWKB else .ok ⟨rd64 o buf, rd64 o (buf.drop 8)⟩
+
+def unmarshalPointFast (o : Order) (buf : Bytes) : R (Pt UInt64) :=
+  if lenLt buf 16 then .err .notWKB else .ok ⟨rd64 o buf, rd64 o (buf.drop 8)⟩
+
+@[csimp] theorem unmarshalPoint_eq_fast : @unmarshalPoint = @unmarshalPointFast := by
+  funext o buf
+  simp only [unmarshalPoint, unmarshalPointFast, lenLt_eq, decide_eq_true_eq]
 
 /-- `unmarshalPolygon`: ring loop with the re-derived offset `16*len(ps)+4`. -/
 def unmarshalPolygon (o : Order) (data : Bytes) : R (List (List (Pt UInt64))) :=
@@ -280,6 +331,15 @@ def readFull (n : Nat) (s : Bytes) : R (Bytes × Bytes) :=
   if s.length = 0 ∧ n > 0 then .err .eof
   else if s.length < n then .err .unexpectedEOF
   else .ok (s.take n, s.drop n)
+
+def readFullFast (n : Nat) (s : Bytes) : R (Bytes × Bytes) :=
+  if s.isEmpty ∧ n > 0 then .err .eof
+  else if lenLt s n then .err .unexpectedEOF
+  else .ok (s.take n, s.drop n)
+
+@[csimp] theorem readFull_eq_fast : @readFull = @readFullFast := by
+  funext n s
+  simp only [readFull, readFullFast, lenLt_eq, decide_eq_true_eq, List.isEmpty_iff, List.length_eq_zero_iff]
 
 def readU32 (o : Order) (s : Bytes) : R (Nat × Bytes) :=
   match readFull 4 s with
@@ -673,6 +733,52 @@ def wkbScan (bnd : BoundFn) (dest : Dest) (raw : Bytes) : R G :=
      | .panic m => .panic m)
   | .err e => .err e
   | .panic m => .panic m
+
+/-! ### one scanner value reused across rows (state carried between `Scan` calls) -/
+
+/-- What a `Scan` call is handed: SQL NULL (a nil interface), a nil `[]byte`, or bytes. -/
+inductive ScanIn where
+  | null | nilBytes | bytes (b : Bytes)
+
+/-- The exported fields of a `GeometryScanner` (`Geometry`, `SRID`, `Valid`); `wkb.GeometryScanner`
+    has no SRID field, it is carried as 0. -/
+structure ScanState where
+  geom : Option G
+  srid : Nat
+  valid : Bool
+
+/-- A scanner as its constructor returns it. -/
+def ScanState.fresh : ScanState := ⟨none, 0, false⟩
+
+/-- `ewkb.GeometryScanner.Scan` as a state transition: `Geometry` and `Valid` are reset first, `SRID`
+    is assigned only on the success path (so it survives an error or a NULL in prefix mode). -/
+def ewkbScanStep (bnd : BoundFn) (prefixSRID : Bool) (dest : Dest) (σ : ScanState) :
+    ScanIn → R (ScanState × Option Err)
+  | .null =>
+    if prefixSRID then .ok (⟨none, σ.srid, false⟩, none)
+    else .ok (⟨none, 0, false⟩, none)
+  | .nilBytes =>
+    if prefixSRID then .ok (⟨none, σ.srid, false⟩, none)
+    else .ok (⟨none, 0, false⟩, none)
+  | .bytes b =>
+    match ewkbScan bnd prefixSRID dest b with
+    | .ok (g, srid) => .ok (⟨some g, srid, true⟩, none)
+    | .err e => .ok (⟨none, σ.srid, false⟩, some e)
+    | .panic m => .panic m
+
+/-- `wkb.GeometryScanner.Scan` as a state transition: the fields are reset first. -/
+def wkbScanStep (bnd : BoundFn) (dest : Dest) (σ : ScanState) : ScanIn → R (ScanState × Option Err)
+  | .null => .ok (⟨none, 0, false⟩, none)
+  | .nilBytes => .ok (⟨none, 0, false⟩, none)
+  | .bytes b =>
+    match wkbScan bnd dest b with
+    | .ok g => .ok (⟨some g, 0, true⟩, none)
+    | .err e => .ok (⟨none, 0, false⟩, some e)
+    | .panic m => .panic m
+
+/-- What a caller can rely on after a `Scan`: the error, `Valid`, `Geometry`, and the SRID of a valid row. -/
+def ScanState.observe (r : ScanState × Option Err) : Option Err × Bool × Option G × Nat :=
+  (r.2, r.1.valid, r.1.geom, if r.1.valid then r.1.srid else 0)
 
 /-! ### documented coercions of typed destinations, as data -/
 
